@@ -81,6 +81,9 @@ class Ctx:
             e = entries[eid]
             print(f"KNOWN-FINDING: property={self.prop} {e['record']} [{len(vs)} case(s); e.g. {json.dumps(vs[0]['key'], sort_keys=True)[:300]}]")
         rdir = os.path.join(common.VERIF, "replay", self.prop)
+        if os.path.isdir(rdir):
+            for f in os.listdir(rdir):  # replay files always describe the latest run only
+                os.remove(os.path.join(rdir, f))
         seen = set()
         n_unknown = 0
         for v in unknown:
